@@ -102,6 +102,15 @@ __all__ = (
 )
 
 
+def _settings(strategy: object) -> dict:
+    """
+    The attributes of a strategy that matter for equality. Creating an instance
+    through a subscripted generic alias, e.g. `EmptyStrategy[A, B]()`, sets
+    `__orig_class__` on the instance; this says nothing about the strategy.
+    """
+    return {k: v for k, v in strategy.__dict__.items() if k != "__orig_class__"}
+
+
 def strategy_from_dict(d) -> CSSstrategy:
     """
     Return the AbstractStrategy or StrategyFactory from the json representation.
@@ -247,7 +256,7 @@ class AbstractStrategy(
     def __eq__(self, other: object) -> bool:
         if not isinstance(other, AbstractStrategy):
             return NotImplemented
-        return self.__class__ == other.__class__ and self.__dict__ == other.__dict__
+        return self.__class__ == other.__class__ and _settings(self) == _settings(other)
 
     def __repr__(self):
         return (
@@ -947,7 +956,7 @@ class StrategyFactory(abc.ABC, Generic[CombinatorialClassType]):
         pass
 
     def __eq__(self, other: object) -> bool:
-        return self.__class__ == other.__class__ and self.__dict__ == other.__dict__
+        return self.__class__ == other.__class__ and _settings(self) == _settings(other)
 
     def __hash__(self) -> int:
         """
